@@ -3,7 +3,8 @@
 import json, os, subprocess
 ROOT = os.path.dirname(os.path.dirname(os.path.abspath(__file__)))
 import glob
-cfg = {"properties": {os.path.basename(f)[:-5]: json.load(open(f)) for f in glob.glob(os.path.join(ROOT, "props", "C*.json"))}}
+claimed = open(os.path.join(ROOT, "props", "claimed.txt")).read().split()
+cfg = {"properties": {os.path.basename(f)[:-5]: json.load(open(f)) for f in glob.glob(os.path.join(ROOT, "props", "C*.json")) if os.path.basename(f)[:-5] in claimed}}
 txt = cfg["properties"]
 na_txt = json.load(open(os.path.join(ROOT, "props", "not_applicable.json"))) if os.path.exists(os.path.join(ROOT, "props", "not_applicable.json")) else {}
 props = [json.loads(l) for l in open(os.path.join(ROOT, "properties.jsonl"))]
